@@ -126,10 +126,10 @@ RunRecord run_driver(const sim::Json& sc) {
 
 void fill_result(const RunRecord& rec, sim::RunResult& r) {
   uint64_t h = rec.hash;
-  h = sim::fnv1a(rec.out, h);
-  h = sim::fnv1a(rec.err, h);
-  for (auto& kv : rec.files_after) { h = sim::fnv1a(kv.first, h); h = sim::fnv1a(kv.second, h); }
-  for (auto& c : rec.stub.calls) h = sim::fnv1a(c, h);
+  h = sim::fnv1a(sim::norm_paths(rec.out), h);
+  h = sim::fnv1a(sim::norm_paths(rec.err), h);
+  for (auto& kv : rec.files_after) { h = sim::fnv1a(kv.first, h); h = sim::fnv1a(sim::norm_paths(kv.second), h); }
+  for (auto& c : rec.stub.calls) h = sim::fnv1a(sim::norm_paths(c), h);
   int rc = rec.exit_status();
   h = sim::fnv1a(&rc, sizeof rc, h);
   r.fingerprint = h;
